@@ -100,7 +100,7 @@ def main(argv):
         user = b"u" * (n % 300)
         ct = bytes(n)
         lines.append("emit3 7 110 0102030405 1 2 %s %s %s enc:%s" % (gen.hx(user), "00" * 12, "00" * 8, gen.hx(ct)))
-        expect.append(ber.msg_v3(7, 3, ber.usm_params(bytes.fromhex("0102030405"), 1, 2, user, bytes(12), bytes(8)), ber.tlv(4, ct), 2048))
+        expect.append(ber.msg_v3(7, 3, ber.usm_params(bytes.fromhex("0102030405"), 1, 2, user, bytes(12), bytes(8)), ber.tlv(4, ct), vf.constant("V3_MAX_SIZE", 2048)))
     m, r, d = cd.run(lines)
     n_oob = 0
     for ln, want, ml, rl, dl in zip(lines, expect, m, r, d):
